@@ -682,6 +682,17 @@ def _modifier_to_expr(parsed_pattern) -> str:
     return " and ".join(conditions)
 
 
+def _regex_call(pattern: str) -> str:
+    """Write regex("...") for a CSV pattern.
+
+    The pattern goes into a string literal of the expression language, so backslashes
+    and double quotes have to be escaped: otherwise \\b would be read as a backspace
+    character and a quote would end the literal.
+    """
+    escaped = pattern.replace('\\', '\\\\').replace('"', '\\"')
+    return f'regex("{escaped}")'
+
+
 def csv_rule_to_merchant_rule(
     pattern: str,
     merchant: str,
@@ -711,7 +722,7 @@ def csv_rule_to_merchant_rule(
     if pattern:
         # Escape any special characters in the pattern for the match expression
         # We use regex() function for the pattern
-        parts.append(f'regex("{pattern}")')
+        parts.append(_regex_call(pattern))
 
     # Add modifier conditions
     modifier_expr = _modifier_to_expr(parsed_pattern)
@@ -814,7 +825,7 @@ def csv_to_merchants_content(csv_rules: List[Tuple]) -> str:
         parts = []
         if pattern:
             # Pattern is already properly escaped for regex use, write as-is
-            parts.append(f'regex("{pattern}")')
+            parts.append(_regex_call(pattern))
 
         modifier_expr = _modifier_to_expr(parsed) if parsed else ""
         if modifier_expr and not modifier_expr.startswith("#"):
